@@ -28,21 +28,35 @@ void harness(void) {
     for(i = 0; i < NB; i++) if(i > len) ASSUME(tok[i] == 0);
     p = 0; while(p < len && tok[p] == ' ') p++;
     q = p; ok = 1;
+#ifdef NUMBER
+    /* NUMBER: an INTEGER or REAL token; the reader (istream >> double) is deliberately lenient: the point, leading or
+       trailing digits and the case of the exponent letter are optional:  [sign] ( d+ [ "." d* ] | "." d+ ) [ (E|e) [sign] d+ ] */
+    if(q < len && (tok[q] == '+' || tok[q] == '-')) q++;
+    { int d0 = q, nd = 0; while(q < len && isdig(tok[q])) q++; nd = q - d0;
+      if(q < len && tok[q] == '.') { int f0; q++; f0 = q; while(q < len && isdig(tok[q])) q++; nd += q - f0; }
+      if(nd == 0) ok = 0; }
+    if(ok && q < len && (tok[q] == 'E' || tok[q] == 'e')) { int s2 = q + 1, d1; if(s2 < len && (tok[s2] == '+' || tok[s2] == '-')) s2++; d1 = s2; while(s2 < len && isdig(tok[s2])) s2++; if(s2 == d1) ok = 0; else q = s2; }
+#else
     if(q < len && (tok[q] == '+' || tok[q] == '-')) q++;
     { int d0 = q; while(q < len && isdig(tok[q])) q++; if(q == d0) ok = 0; }
     if(ok && q < len && tok[q] == '.') q++; else ok = 0;
     if(ok) { while(q < len && isdig(tok[q])) q++;
              if(q < len && tok[q] == 'E') { int s2 = q + 1, d1; if(s2 < len && (tok[s2] == '+' || tok[s2] == '-')) s2++; d1 = s2; while(s2 < len && isdig(tok[s2])) s2++; if(s2 == d1) ok = 0; else q = s2; } }
+#endif
     e = q; while(e < len && tok[e] == ' ') e++;
     { int ingrammar = ok && (e == len || (usedelims && (tok[e] == ',' || tok[e] == ')')));
       /* when does the (uninterpreted) conversion report "out of range"?  Tie the flag to the one case where the real libc
          certainly does -- non-zero mantissa and a positive exponent >= 400 -- so that counterexamples replay on the real build */
       int k, mant_nz = 0, seenE = 0, eneg = 0, expval = 0, certain;
-      for(k = 0; k < NB; k++) if(k >= p && k < q) { if(tok[k] == 'E') seenE = 1; else if(!seenE && tok[k] >= '1' && tok[k] <= '9') mant_nz = 1; else if(seenE && tok[k] == '-') eneg = 1; else if(seenE && isdig(tok[k]) && expval < 100000) expval = expval * 10 + (tok[k] - '0'); }
+      for(k = 0; k < NB; k++) if(k >= p && k < q) { if(tok[k] == 'E' || tok[k] == 'e') seenE = 1; else if(!seenE && tok[k] >= '1' && tok[k] <= '9') mant_nz = 1; else if(seenE && tok[k] == '-') eneg = 1; else if(seenE && isdig(tok[k]) && expval < 100000) expval = expval * 10 + (tok[k] - '0'); }
       certain = mant_nz && seenE && !eneg && expval >= 400;
       if(ingrammar) ASSUME(((convok & 1) == 0) == (certain != 0));
       int onlyblanks = (p == len || (usedelims && (tok[p] == ',' || tok[p] == ')')));
+#ifdef NUMBER
+      r = w_read_num(2, tok, usedelims, &idummy, &val, &sev, &pos, &eofbit);
+#else
       r = w_read_num(1, tok, usedelims, &idummy, &val, &sev, &pos, &eofbit);
+#endif
       OBS("tok=[%s] d=%d r=%d sev=%d pos=%ld eof=%d val=%.17g", tok, usedelims, r, sev, pos, eofbit, r ? val : 0.0);
       if(ingrammar) {
 #ifndef NATIVE
